@@ -17,7 +17,12 @@ Times are microseconds (`MIN_DT = 0`); cycle `i` of a history runs at `t0 + i`. 
 slots `graphs[0]`, `graphs[1]` are indexed by `Bool` (`false` = 0, `true` = 1, `1U - slot` = `!slot`).
 Only the ordinary output path is modelled (`output_forwards_to_child_terminal = false`; the other
 path performs the same stop / slot bookkeeping in the same order and differs in output binding
-only).  All bound branch inputs are active.  Core Lean only.
+only).  The child's node may be bound to SEVERAL boundary inputs, each binding with its own
+activity (`Branch.passive`: `InputActivity::Passive` positions) and validity policy
+(`Branch.validInputs`); the sampled start of a new child (`nested_bindings.h`
+`schedule_sampled_input_consumers` / `nested_input_binding_has_sampled_active_target`) is modelled
+per BINDING, as coded: the node is scheduled iff SOME binding has an active target whose source is
+valid (or the node's validity gate is explicitly empty).  Core Lean only.
 -/
 namespace HgVerif.Switch
 
@@ -44,7 +49,9 @@ def Port.sample (p : Port) : Port := ⟨p.value, p.ticked || p.value.isSome⟩
     `binds`; `some []` is the explicit empty gate (`accepts_invalid` in `nested_bindings.h`).
     `start now init` is the start hook (it may schedule at `now` or later); `step st now view woken`
     is one run of the user code (`woken`: its own timer is due) returning the new state, the output
-    tick and the complete new wake-up time. -/
+    tick and the complete new wake-up time.  `passive` lists the positions of `binds` whose input is
+    `InputActivity::Passive`: a tick of such an input does not schedule the node and its binding is
+    not sampled at activation (the value is still readable). -/
 structure Branch (σ : Type) where
   name : String
   binds : List Nat
@@ -52,6 +59,12 @@ structure Branch (σ : Type) where
   init : σ
   start : Time → σ → σ × Option Time
   step : σ → Time → List Port → Bool → σ × Option Val × Option Time
+  passive : List Nat := []
+
+/-- some ACTIVE position (counted from `i`) of a view satisfies `f` -/
+def activeAny (passive : List Nat) (f : Port → Bool) : Nat → List Port → Bool
+  | _, [] => false
+  | i, p :: r => (!passive.contains i && f p) || activeAny passive f (i + 1) r
 
 namespace Branch
 variable {σ : Type}
@@ -67,6 +80,20 @@ def acceptsInvalid (b : Branch σ) : Bool :=
   match b.validInputs with
   | some [] => true
   | _ => false
+
+/-- `nested_input_binding_has_sampled_active_target` for the binding at position `i` whose source is `p`:
+    `active && (input.valid() || accepts_invalid)` -/
+def bindingSampled (b : Branch σ) (i : Nat) (p : Port) : Bool :=
+  !b.passive.contains i && (p.value.isSome || b.acceptsInvalid)
+
+/-- the loop of `schedule_sampled_input_consumers` over the bindings of the node: it is scheduled at
+    activation iff SOME binding qualifies -/
+def sampledStart (b : Branch σ) (ports : List Port) : Bool :=
+  activeAny b.passive (fun p => p.value.isSome || b.acceptsInvalid) 0 (b.view ports)
+
+/-- an ordinary notification: an ACTIVE bound input ticked -/
+def notified (b : Branch σ) (ports : List Port) : Bool :=
+  activeAny b.passive (fun p => p.ticked) 0 (b.view ports)
 
 end Branch
 
@@ -199,12 +226,12 @@ structure ChildOut (σ : Type) where
 def Child.seen (i : Child σ) (now : Time) (ports : List Port) : List Port :=
   if i.sampledAt == some now then (i.br.view ports).map Port.sample else i.br.view ports
 
-/-- The child's node is scheduled at `now`: a bound input ticked (or was sampled at activation —
-    `schedule_sampled_input_consumers`, which also schedules an empty-validity-gate node whose
-    sources are unset) or its own timer is due. -/
+/-- The child's node is scheduled at `now`: in the cycle it was activated by the sampled start
+    (`schedule_sampled_input_consumers`: some binding with an active target and a valid source, or an
+    empty validity gate; the sources ticked before the child subscribed, so no ordinary notification
+    arrives in that cycle), later by a tick of an ACTIVE bound input; or its own timer is due. -/
 def Child.due (i : Child σ) (now : Time) (ports : List Port) : Bool :=
-  (i.seen now ports).any (fun p => p.ticked) ||
-    (i.sampledAt == some now && i.br.acceptsInvalid && !(i.br.view ports).isEmpty) ||
+  (if i.sampledAt == some now then i.br.sampledStart ports else i.br.notified ports) ||
     i.wake == some now
 
 /-- One evaluation of a child graph at `now` (`GraphView::evaluate` on the nested graph): the user
